@@ -162,9 +162,8 @@ impl Sm2PublicKey {
     pub fn from_hex_string(hex_str: &str) -> Result<Self, FromHexError> {
         let bytes = hex::decode(hex_str);
         match bytes {
-            Ok(b) => Ok(Self {
-                point: Point::from_byte(b.as_slice()).unwrap(),
-            }),
+            // a byte string that is not a valid point encoding has no hex-specific error: report its length
+            Ok(b) => Self::new(b.as_slice()).map_err(|_| FromHexError::InvalidStringLength),
             Err(e) => Err(e),
         }
     }
